@@ -2,6 +2,7 @@
 #include "clause.h"
 #include "sat_value_listener.h"
 #include "theory.h"
+#include "verif.h"
 #include <algorithm>
 #include <cmath>
 #include <cassert>
@@ -54,6 +55,7 @@ namespace smt
     SMT_EXPORT bool sat_core::new_clause(std::vector<lit> lits) noexcept
     {
         assert(root_level());
+        VERIF_HOOK(new_clause(lits));
         // we check if the clause is already satisfied and filter out false/duplicate literals..
         std::sort(lits.begin(), lits.end(), [](const auto &l0, const auto &l1)
                   { return variable(l0) < variable(l1); });
@@ -433,6 +435,7 @@ namespace smt
 
                         if (root_level())
                         {
+                            VERIF_HOOK(theory_conflict(*th, th->cnfl));
                             th->cnfl.clear();
                             return false;
                         }
@@ -452,6 +455,7 @@ namespace smt
             {
                 if (root_level())
                 {
+                    VERIF_HOOK(theory_conflict(*th, th->cnfl));
                     th->cnfl.clear();
                     return false;
                 }
@@ -552,6 +556,7 @@ namespace smt
 
     void sat_core::record(std::vector<lit> lits) noexcept
     {
+        VERIF_HOOK(learnt(lits));
         assert(value(lits[0]) == Undefined);
         assert(std::count_if(lits.cbegin(), lits.cend(), [this](auto &p)
                              { return value(p) == True; }) == 0);
